@@ -4,27 +4,10 @@ The origin slice reads `let mut v = f(); v.retain(..); v` as `f()`: writes throu
 term.  For the functions that accumulate their result on purpose (push in a loop, sort before returning) the rules
 look at the writes themselves; this rule closes the gap for everything else.  For every function whose return value
 some rule of the running property has read, the locals on the way to the return place (moves, and operands of the
-aggregates that wrap them) may be mutably borrowed only as confirmed on the reference tree: the table lists, per
-function and local, which callees receive the `&mut` borrow."""
+aggregates that wrap them) may be modified in place only as confirmed on the reference tree (core/mutab.py)."""
 from ..core import terms
 from ..core.facts import callee_name
 from ..core.prog import short
-
-CONFIRMED = {'data_row_iterator::DataRowIterator::try_new': {'test_data': ['DataRowIteratorTestData::build_output_indices']},
- 'dig::File::parse': {'signals': ['[T]::iter_mut']},
- 'errors::SignalError::with_source': {'self': ['<borrow kept>']},
- 'eval_context::EvalContext::new_with_outputs': {'ctx': ['EvalContext::set_outputs']},
- 'framed_map::FramedMap::flatten': {'values': ['HashMap::insert']},
- 'parsed_test_case::ParsedTestCase::build_indices': {'expected_indices': ['Vec::push'], 'input_indices': ['Vec::push']},
- 'parsed_test_case::ParsedTestCase::build_read_outputs': {'read_outputs': ['Vec::push']},
- 'parsed_test_case::ParsedTestCase::with_signals': {'signals': ['Extend::extend']},
- 'parser::HeaderParser::parse': {'signals': ['Vec::push'], 'spans': ['Vec::push']},
- 'parser::Parser::finish': {'expected_inputs': ['[T]::sort_by'], 'read_outputs': ['[T]::sort_by'], 'virtual_signals': ['[T]::sort_by']},
- 'parser::expr::<impl parser::Parser>::parse_factor': {'args': ['Vec::push']},
- 'parser::stmt::<impl parser::Parser>::parse_data_row': {'data': ['Vec::push']},
- 'parser::stmt::<impl parser::Parser>::parse_stmt_block': {'block': ['Vec::push']},
- 'stmt::StmtIterator::next_with_context': {'entries': ['Extend::extend']}}
-
 
 def returned_chain(b):
     S = {0}
@@ -43,52 +26,20 @@ def returned_chain(b):
     return S
 
 
-def mutations(b):
-    """{local name: sorted callees that receive a `&mut` borrow of that local} for the locals on the way to the return place."""
-    S = returned_chain(b)
-    out = {}
-    for bi, blk in enumerate(b.blocks):
-        for st in blk["stmts"]:
-            if st["s"] == "assign" and st["rv"]["r"] == "ref" and st["rv"].get("bk") == "mut":
-                a = st["rv"]["a"]
-                if a["l"] in S and not (a["p"] and a["p"][0] == "*"):
-                    tmp = st["lhs"]["l"]
-                    users = set()
-                    work, seen = [tmp], set()
-                    while work:
-                        cur = work.pop()
-                        if cur in seen:
-                            continue
-                        seen.add(cur)
-                        for blk2 in b.blocks:
-                            for st2 in blk2["stmts"]:   # a reborrow or move of the borrow
-                                if st2["s"] == "assign" and not st2["lhs"]["p"] and st2["rv"]["r"] in ("use", "ref") and isinstance(st2["rv"]["a"], dict) and st2["rv"]["a"].get("l") == cur:
-                                    work.append(st2["lhs"]["l"])
-                            t = blk2["term"]
-                            if t["t"] == "call" and any(isinstance(x, dict) and x.get("l") == cur and not x.get("p") for x in t["args"]):
-                                nm = short(callee_name(t)[0])
-                                if nm.endswith("deref_mut") or nm.endswith("as_mut") or nm.endswith("borrow_mut"):
-                                    work.append(t["dest"]["l"])   # Vec -> slice: what is done with the slice counts
-                                else:
-                                    users.add(nm)
-                    name = b.local_name(a["l"]) or "_%d" % a["l"]
-                    out.setdefault(name, set()).update(users or {"<borrow kept>"})
-    return {k: sorted(v) for k, v in out.items()}
-
-
 def rule(chk, P, names):
+    from ..core import mutab
     n = 0
     for nm in sorted(names):
         b = P.body(nm)
         if b is None or b.derived:
             continue
-        got = mutations(b)
-        want = CONFIRMED.get(nm, {})
         n += 1
-        for loc, users in sorted(got.items()):
-            extra = sorted(set(users) - set(want.get(loc, [])))
-            chk.require(not extra, "MUT", "MUT:returned-value-is-the-value-built:%s:%s" % (nm, loc),
-                        "modified only through %s, as confirmed" % want.get(loc, []),
-                        "the value `%s` that %s returns is modified after it was built, through %s — a rule that reads the returned term does not see that write" % (loc, nm, extra),
-                        "%s:%d" % (b.file, b.line))
-    chk.ok("MUT", "MUT:returned-values-checked", "%d function(s) whose return value a rule of this property reads" % n, nontrivial=False)
+        chain = returned_chain(b)
+        for l, writers in sorted(mutab.unconfirmed(b).items()):
+            if l not in chain:
+                continue
+            loc = b.debug_names.get(l) or "<temp>"
+            chk.fail("MUT", "MUT:returned-value-is-the-value-built:%s:%s" % (nm, loc),
+                     "the value `%s` that %s returns is modified after it was built, through %s — a write the reference tree does not make (core/mutab.py); a rule that reads the returned term does not see it" % (loc, nm, writers),
+                     "%s:%d" % (b.file, b.line))
+    chk.ok("MUT", "MUT:returned-values-checked", "%d function(s) whose return value a rule of this property reads: none is modified in place other than as confirmed" % n, nontrivial=False)
